@@ -134,7 +134,7 @@ def prove(ctx):
 
 
 def correspond(ctx):
-    c08files.run(ctx, PROP, 450, 8000)
+    c08files.run(ctx, PROP, 320, 6000)
     if not ctx.quick():
         c08files.real_runs(ctx, PROP)
     ctx.extra_cov["file_token_scenarios"] = {"real_observer": real_observer_scenario(ctx), "killed_writer": killed_writer_scenario(ctx)}
